@@ -386,6 +386,7 @@ def run(ctx):
     out.append(T.where_clause_rule(ctx.syn, "C16"))
     out.append(T.template_hygiene_rule(ctx.syn, "C16"))
     out.append(T.crate_path_rule(ctx.syn, "C16"))
+    out.append(T.passthrough_fields_rule(ctx.syn, "C16", rule="C16.R16"))
     out.append(T.underscore_walker_rule(ctx.syn, "C16", rule="C16.R14"))
     out.append(T.generics_rule(ctx.syn, "C16", rule="C16.R12"))
     return out
